@@ -148,7 +148,8 @@ def strategy_(draw, tier):
         if ints and draw(st.booleans()):
             v = draw(st.sampled_from(ints))
             side = draw(st.integers(0, 1))
-            put(ov[side], v['path'], draw(st.integers(200, 250)))
+            put(ov[side], v['path'], draw(st.one_of(
+                st.just(0), st.integers(200, 250))))
         overrides[m] = ov
     return {'vars': vars_, 'bag': bag, 'dv': dv, 'plan': plan,
             'trigger': draw(st.sampled_from(['ext_explicit', 'ext_copy',
